@@ -49,7 +49,7 @@ class Faults(object):
 
 
 def conversation(sx, typ, fsci, fwi, tx_size, clens, rlens, wtx, budget, kinds, go_on=False,
-                 wtx_in_chain=False):
+                 wtx_in_chain=False, wtx_counts=(1,)):
     w = worlds.T4World(sx, 0x20, 255, 255, 16, 3, typ=typ, fsci=fsci, fwi=fwi,
                        tx_size=tx_size, wtx_at=wtx, fill=0x41)
     card = w.sim
@@ -57,6 +57,11 @@ def conversation(sx, typ, fsci, fwi, tx_size, clens, rlens, wtx, budget, kinds, 
     if tag is None:
         sx.check(False, "activate-returned-none")
     card.wtx_in_chain = wtx_in_chain
+    if wtx:
+        # number of consecutive waiting-time extensions the card asks for
+        card.wtx_count = sx.pick("wtx_count", list(wtx_counts))
+        if card.wtx_count > 1:
+            sx.reach("wtx_repeated")
     if wtx_in_chain:
         sx.reach("wtx_during_response_chaining")
     fsc = tags_fsc(fsci)
@@ -161,6 +166,17 @@ def partitions(tier):
     P.append(dict(name="B:wtx", fn="conversation",
                   params=dict(typ="B", fsci=2, fwi=4, tx_size=29, clens=[2, "1m+1"], rlens=["1m+1", 1],
                               wtx=[0, 1], budget=2, kinds=kinds)))
+    # several waiting-time extensions for one command, more than the retry
+    # budget for lost blocks (5 at FWI 4, 1 at FWI 11, 0 at FWI 14)
+    P.append(dict(name="A:wtx-repeated", fn="conversation",
+                  params=dict(typ="A", fsci=2, fwi=4, tx_size=29, clens=[2, "1m+1"], rlens=["1m+1", 1],
+                              wtx=[0, 1], budget=1, kinds=kinds, wtx_counts=[2, 6, 9])))
+    P.append(dict(name="A:wtx-repeated:fwi11", fn="conversation",
+                  params=dict(typ="A", fsci=2, fwi=11, tx_size=29, clens=[2], rlens=[1],
+                              wtx=[0], budget=1, kinds=kinds, wtx_counts=[1, 2, 3])))
+    P.append(dict(name="A:wtx:fwi14", fn="conversation",
+                  params=dict(typ="A", fsci=2, fwi=14, tx_size=29, clens=[2], rlens=[1],
+                              wtx=[0], budget=0, kinds=kinds, wtx_counts=[1, 2])))
     P.append(dict(name="A:no-retry-budget", fn="conversation",
                   params=dict(typ="A", fsci=2, fwi=14, tx_size=29, clens=["1m+1"], rlens=["1m+1"],
                               wtx=[], budget=1, kinds=kinds)))
@@ -175,7 +191,7 @@ def partitions(tier):
 
 
 MUST_REACH = ["apdu_completed", "completed_despite_faults", "tag_command_error",
-              "command_chained", "response_chained", "wtx", "apdu_after_failed_exchange", "wtx_during_response_chaining"]
+              "command_chained", "response_chained", "wtx", "apdu_after_failed_exchange", "wtx_during_response_chaining", "wtx_repeated"]
 BOUNDS = {"quick": "<=2 faults per conversation out of {command lost, response lost, response garbled} at each of the first 24 blocks; FSCI 0/2/3; command/response lengths around multiples of FSC-3; 1-3 consecutive APDUs; one S(WTX); FWI 4 and 14; APDU and response bytes symbolic",
           "thorough": "<=3 faults; FSCI 0/2/3/5/8"}
 OUTSIDE = ["CID/NAD", "extended length APDUs", "more than 24 blocks per conversation", "FSD below 256"]
